@@ -558,7 +558,10 @@ def bret_run_case(case, universe):
 # part (c): Python-side wrapper, BFS over histories
 
 # (body text, arity in the Klong sense = highest of x, y, z used)
-C_BODIES_Q = [('{7}', 0), ('{x+1}', 1), ('{-x}', 1), ('{1,,x}', 1), ('{x-y}', 2), ('{y,x}', 2), ('{(x*100)+(y*10)+z}', 3)]
+# `tick` is an instrumented Python callable (counts how often a body runs); :{[1 2]}@x raises KeyError for x other than 1:
+# a failure inside the function that has the class of the wrapper's own "name was deleted" signal
+C_BODIES_Q = [('{7}', 0), ('{x+1}', 1), ('{-x}', 1), ('{1,,x}', 1), ('{x-y}', 2), ('{y,x}', 2), ('{(x*100)+(y*10)+z}', 3),
+              ('{tick(0);:{[1 2]}@x}', 1)]
 C_BODIES_T = C_BODIES_Q + [('{[1 2]}', 0), ('{x}', 1), ('{#x}', 1), ('{(-x),-y}', 2), ('{z,y,x}', 3)]
 C_BODIES_B = [('{x+1}', 1), ('{x-y}', 2)]
 C_PY = [1, 2]                      # arities of the instrumented Python callables of phase B
@@ -652,6 +655,9 @@ class CEnv:
         self.slots = [None, None]
         self.log = []
         self.py = {n: make_callable(tuple((p, None) for p in ('x', 'y', 'z')[:n]), self.log) for n in C_PY}
+        self.ticks = []
+        self.tick_fn = lambda x: (self.ticks.append(1), 0)[1]
+        self.kl['tick'] = self.tick_fn
 
     def do(self, op):
         """Execute op on the real interpreter; returns outcome."""
@@ -697,7 +703,9 @@ def c_judge(env, op, hist):
     cap_before = env.m.caps[op[1]] if op[0] == 'call' else None
     exp = env.m.step(op)
     n_log = len(env.log)
+    n_ticks = len(env.ticks)
     got = env.do(op)
+    ticks_wrapper = len(env.ticks) - n_ticks
     viol = []
 
     def v(key, observed, expected, group):
@@ -748,13 +756,19 @@ def c_judge(env, op, hist):
                 v(key, obs, want, py_grp)
         else:
             call = 'f(%s)' % ';'.join(lit(cn(a)) for a in args)
+            n_ticks = len(env.ticks)
             if bound_before is not None:
                 ref = outcome(lambda: env.kl(call))
             else:
                 twin = KlongInterpreter()
+                twin['tick'] = env.tick_fn
                 twin('f::' + bodies[target[1]][0])
                 ref = outcome(lambda: twin(call))
+            ticks_ref = len(env.ticks) - n_ticks
             same = (got == ref) if ref[0] == 'ok' else (got[0] == 'exc')
+            if ticks_wrapper != ticks_ref:
+                v(key + ' @runs', 'the function body ran %d time(s) for one wrapper call' % ticks_wrapper,
+                  '%d (as for klong(%r))' % (ticks_ref, call), 'wrapper-runs-the-function-again-after-its-keyerror')
             if not same:
                 if got == ('exc', 'RuntimeError') and _monad_only(bodies[target[1]][0]):
                     grp = 'arity-inference-ignores-monad-operand'
